@@ -109,7 +109,7 @@ class Walk:
         if aud is not None:
             det["audit"] = aud
             return self.fail(("malformed", rule_name, ap.arrangement), det)
-        if X.has_nonfinite(new):
+        if X.has_nonfinite(new) or E.has_huge_constant(new):
             self.ctx.count("walks_ended_nonfinite")
             self.dead = True
             return True
